@@ -71,7 +71,14 @@ impl DeliveryState {
 
 impl Drop for DeliveryState {
     fn drop(&mut self) {
-        let lock = self.registered_signal_ids.lock().unwrap();
+        // A documented panic of add_signal (forbidden or out-of-range signal) happens with this
+        // lock held. The table is only ever written after a successful registration, so it is
+        // consistent nevertheless and the poison can be ignored ‒ unwrapping here would abort the
+        // process when the instance is dropped during that very unwinding.
+        let lock = self
+            .registered_signal_ids
+            .lock()
+            .unwrap_or_else(std::sync::PoisonError::into_inner);
         for id in lock.iter().filter_map(|s| *s) {
             crate::low_level::unregister(id);
         }
@@ -198,7 +205,12 @@ impl Handle {
     /// * If the relevant [`Exfiltrator`] does not support this particular signal. The default
     ///   [`SignalOnly`] one supports all signals.
     pub fn add_signal(&self, signal: c_int) -> Result<(), Error> {
-        let mut lock = self.delivery_state.registered_signal_ids.lock().unwrap();
+        // See the Drop of DeliveryState for why the poison is of no interest.
+        let mut lock = self
+            .delivery_state
+            .registered_signal_ids
+            .lock()
+            .unwrap_or_else(std::sync::PoisonError::into_inner);
         // Already registered, ignoring
         if lock[signal as usize].is_some() {
             return Ok(());
